@@ -336,3 +336,19 @@ pub type SNestGen = <NestGen<Vec<u32>> as SerializeInner>::SerType;
 pub struct CDefault<T, const N: usize = 4> { pub a: [u8; N], pub t: T }
 pub type DCDefault = <CDefault<Vec<u64>> as DeserializeInner>::DeserType<'static>;
 pub type DCDefault2 = <CDefault<String, 2> as DeserializeInner>::DeserType<'static>;
+
+// ---- explicit and implicit discriminants mixed (Rust continues numbering after an explicit one): a tag scheme that
+//      follows the discriminants only partly makes two variants collide
+#[derive(Epserde, Debug, Clone, Copy, PartialEq)]
+pub enum ELevel {
+    Low = 1,
+    Mid,
+    High,
+}
+#[derive(Epserde, Debug, Clone, PartialEq)]
+#[repr(u8)]
+pub enum EShapeMixed {
+    Empty = 1,
+    Named { a: u16 },
+    Tuple(Vec<u8>) = 7,
+}
